@@ -6,6 +6,7 @@ R: harness.run_c16 (retree.parse / render / parse(render), Python `re` on text a
 V: RegexTrace (one invariant per clause; languages decided by the declarative matcher of Regex.tla).
 S: S_OracleAgreesWithRe (Python `re` reads RenderSpec(tree) as Regex.tla reads the tree) — a failure is exit 2.
 """
+import concurrent.futures
 import json
 import os
 import pathlib
@@ -64,8 +65,10 @@ def main() -> int:
         cases = [core.read_json(pathlib.Path(replay))["case"]]
         n_tree = n_tok = n_corpus = 0
     else:
-        trees = ro.generate(ck, "RegexGen", "RegexGen%s.cfg" % suffix, "G: regex trees by family, with concrete syntax and boundary alphabet", "trees")
-        toks = ro.generate(ck, "RegexTokGen", "RegexTokGen%s.cfg" % suffix, "G: near-miss token sequences", "toks")
+        with concurrent.futures.ThreadPoolExecutor(max_workers=2) as ex:
+            f_trees = ex.submit(ro.generate, ck, "RegexGen", "RegexGen%s.cfg" % suffix, "G: regex trees by family, with concrete syntax and boundary alphabet", "trees")
+            f_toks = ex.submit(ro.generate, ck, "RegexTokGen", "RegexTokGen%s.cfg" % suffix, "G: near-miss token sequences", "toks")
+            trees, toks = f_trees.result(), f_toks.result()
         cases = []
         for c in trees:
             cases.append({"src": "tree:" + c["fam"], "has_tree": True, "tree": c["tree"], "text": c["text"], "alpha": c["alpha"], "maxlen": c["maxlen"], "smax": min(3, c["maxlen"])})
@@ -93,7 +96,7 @@ def main() -> int:
     obs = core.read_json(obs_p)
     if len(obs) != len(cases):
         raise core.MachineryFailure("runner returned %d observations for %d cases" % (len(obs), len(cases)))
-    violations, counters = ro.validate(ck, "RegexTrace", None, obs, "V: observed parse/render/reparse satisfy the clauses of C16", chunk=2500 if ck.quick else 4000)
+    violations, counters = ro.validate(ck, "RegexTrace", None, obs, "V: observed parse/render/reparse satisfy the clauses of C16")
     oracle = [v for v in violations if v["invariant"].startswith("S_")]
     if oracle:
         o = obs[oracle[0]["n"]]
